@@ -51,7 +51,8 @@ class Other(Exception):
 CLASSES = [Base, Sub, Other]
 FILTERS = {'all': (), 'Base': (Base,), 'Sub': (Sub,), 'Other': (Other,),
            'Sub|Other': (Sub, Other)}
-ORIGINS = ['early_listener', 'listener', 'reaction', 'decoder', 'exit']
+ORIGINS = ['early_listener', 'listener', 'reaction', 'decoder', 'exit',
+           'flush']
 FINALS = ['none', 'false', 'returns', 'raises']
 
 
@@ -119,6 +120,24 @@ def routing(ctx, origin, chain, final, reconnect=False, sentinel=False):
             def l_late(p):
                 raise origin_exc()
             conn.register_packet_listener(l_late, cb.KeepAlivePacket)
+        elif origin == 'flush':
+            # a listener queues a packet and disconnects; an outgoing
+            # listener raises while disconnect() flushes the queue, so the
+            # exception escapes the (incoming) listener from inside
+            # disconnect()
+            from minecraft.networking.packets import serverbound
+
+            def out_early(p):
+                raise origin_exc()
+            conn.register_packet_listener(
+                out_early, serverbound.play.ChatPacket, early=True,
+                outgoing=True)
+
+            def l_flush(p):
+                conn.write_packet(serverbound.play.ChatPacket(
+                    message='bye'))
+                conn.disconnect()
+            conn.register_packet_listener(l_flush, cb.KeepAlivePacket)
         elif origin == 'reaction':
             class Boom(object):
                 # the built-in reaction reads this attribute of the packet
